@@ -176,6 +176,28 @@ def layout_fn(case, wit):
     except Violation as v:
         raise Violation(v.monitor, v.msg.split(" | ")[0], "deep book: %s side, price levels submitted in the order %s, a sweep of %d levels then one level per round | %s" % (
             "buy" if side else "sell", [price(r) for r in arr], k1, v.msg.split(" | ", 1)[-1]))
+    # one order of the layout carries a time-to-live and expires alone (every position: root, inner node, leaf, last slot);
+    # then a sweep of three levels and one round per remaining level
+    try:
+        for j in range(n):
+            w = World("free", _FACTORY())
+            for i, r in enumerate(arr):
+                w.apply(("L", side, price(r), 1, 1 if i == j else None))
+            w.apply(("T",))
+            w.apply(("T",))
+            w.apply(("L", not side, worst, 3, None))
+            w.apply(("X",))
+            for _ in range(n - 4):
+                rest = [o for o in w.live() if o.is_buy == side]
+                if not rest:
+                    break
+                w.apply(("L", not side, min(rest, key=K).price, 1, None))
+                w.apply(("X",))
+            wit.merge(w.wit)
+            wit.inc("heap_layout_cases")
+    except Violation as v:
+        raise Violation(v.monitor, v.msg.split(" | ")[0], "deep book: %s side, price levels submitted in the order %s, the order submitted as #%d expires, then a sweep of 3 levels and one level per round | %s" % (
+            "buy" if side else "sell", [price(r) for r in arr], j, v.msg.split(" | ", 1)[-1]))
     return (side, n)
 
 
